@@ -58,7 +58,7 @@ PROPS = {
                        'end-to-end statement on the real crate for every text/option combination of its scope.',
     },
     'C02': {
-        'units': ['U11', 'U1', 'U6'], 'level': 'other', 'trusted': ['A1', 'A4', 'A5', 'A9', 'A12', 'R15'],
+        'units': ['U11', 'U1', 'U6', 'U22'], 'level': 'other', 'trusted': ['A1', 'A4', 'A5', 'A9', 'A12', 'R15'],
         'proved_part': 'Verus: the line breaker is called with [width - dw(indent of the first line it produces), width - dw(subsequent_indent)] (a precondition on the callee, '
                        'taken from "each line is measured against the indent it is actually rendered with"); wrap_first_fit is greedy-maximal, so every line with >= 2 fragments '
                        'fits; break_words passes words not wider than the limit through unchanged.',
@@ -75,7 +75,7 @@ PROPS = {
         'explanation': 'Mixed: the cost model and the structure are proved; minimality is bounded-only (Verus has no float theory; SMAWK\'s guarantee needs total monotonicity).',
     },
     'C04': {
-        'units': ['U1', 'U2', 'U3', 'U4', 'U5', 'U6', 'U8', 'U9', 'U10', 'U11', 'U12', 'U13', 'U14', 'U15', 'U16', 'U17', 'U18', 'U20', 'U21'], 'level': 'other', 'kani': [K1, K1MIN],
+        'units': ['U1', 'U2', 'U3', 'U4', 'U5', 'U6', 'U8', 'U9', 'U10', 'U11', 'U12', 'U13', 'U14', 'U15', 'U16', 'U17', 'U18', 'U20', 'U21', 'U22'], 'level': 'other', 'kani': [K1, K1MIN],
         'trusted': ['A1', 'A2', 'A3', 'A4', 'A5', 'A6', 'A7', 'A8', 'A9', 'A10', 'A11', 'A12', 'R15'],
         'proved_part': 'Verus: absence of panics (index/slice bounds incl. char boundaries in NonEmptyLines, arithmetic overflow, unwrap on None, callee preconditions) and '
                        'termination for wrap_first_fit, wrap_optimal_fit (Err only from the is_infinite test), skip_ansi_escape_sequence, display_width (A8), NonEmptyLines::next, '
@@ -111,16 +111,16 @@ PROPS = {
         'explanation': 'Proof: greedy-maximality is the postcondition of wrap_first_fit (exists breaks. lines_match && greedy), discharged by Verus; BEC re-checks by execution.',
     },
     'C08': {
-        'units': ['U11'], 'level': 'other', 'trusted': ['A3', 'A4', 'A9', 'A12', 'R15'],
+        'units': ['U11', 'U22'], 'level': 'other', 'trusted': ['A3', 'A4', 'A9', 'A12', 'R15'],
         'proved_part': 'Verus, all inputs, no assumption beyond the std wrappers: output line n of wrap starts with initial_indent if n == 0 else subsequent_indent — through '
                        'the fast path, the slow path and lines from empty paragraphs.',
         'bounded_part': 'BEC: second sentence (the remainder depends only on the indents\' widths and emptiness) — relational over two calls.',
         'explanation': 'Mixed: the first sentence is proved completely (postcondition `indented` of wrap); the second sentence is relational and bounded.',
     },
     'C09': {
-        'units': ['U11', 'U12'], 'level': 'other', 'trusted': ['A3', 'A4', 'A9', 'A12', 'R15'],
+        'units': ['U11', 'U12', 'U22'], 'level': 'other', 'trusted': ['A3', 'A4', 'A9', 'A12', 'R15'],
         'proved_part': 'Verus: each paragraph appends >= 1 line and never touches earlier lines (never fewer lines than paragraphs, never joined across a break); '
-                       'fill_slow_path == wrap\'s lines joined by the configured line ending (U12); fill == wrap\'s lines joined for every text, shortcut included (U12: fill calls the fill_slow_path contract proved in the same unit; from U11 only '
+                       'fill_slow_path == wrap\'s lines joined by the configured line ending (U12); the by-reference conversion of Options copies every option unchanged and each setter changes exactly its field (U22); fill == wrap\'s lines joined for every text, shortcut included (U12: fill calls the fill_slow_path contract proved in the same unit; from U11 only '
                        'wrap\'s shortcut postcondition is restated).',
         'bounded_part': 'BEC: wrap(a+E+b) begins with wrap(a), the rest is independent of a and equals wrap(b) for empty indents; LF<->CRLF equivariance; fill fast path.',
         'explanation': 'Mixed: append-only structure and the join are proved; independence is relational over several calls and bounded.',
